@@ -43,8 +43,9 @@ type c18case struct {
 	Mut     string     `json:"mutation,omitempty"`
 	Object  string     `json:"object,omitempty"` // printed object (information only; regenerated from type/profile/seed)
 	Row     string     `json:"row,omitempty"`
-	Steps   []memoStep `json:"steps,omitempty"` // kind "memo": API sequence on one live object
-	Cert    *certCase  `json:"cert,omitempty"`  // kind "cert": votes of one certificate
+	Steps   []memoStep `json:"steps,omitempty"`  // kind "memo": API sequence on one live object
+	Cert    *certCase  `json:"cert,omitempty"`   // kind "cert": votes of one certificate
+	Hdr     *hdrCase   `json:"header,omitempty"` // kind "header": crafted header shape
 }
 
 func typeShort(name string) string { return name[strings.Index(name, ":")+1:] }
@@ -757,6 +758,11 @@ func init() {
 					return fmt.Errorf("unknown type %q", cs.Type)
 				}
 				rn.checkObject(ti, profByName(cs.Profile), cs.Seed, 1<<30, cs.Leaf)
+			case "header":
+				if cs.Hdr == nil {
+					return fmt.Errorf("header replay without shape")
+				}
+				rn.hdrCase(*cs.Hdr)
 			case "cert":
 				if cs.Cert == nil {
 					return fmt.Errorf("cert replay without votes")
@@ -793,6 +799,7 @@ func init() {
 		rn.memoFamily(c.Scale(60, 1500))
 		rn.nonCanonicalFamily(c.Scale(10, 150))
 		rn.certFamily(c.Scale(150, 4000))
+		rn.hdrFamily(c.Scale(80, 2000))
 		perType := c.Scale(25, 250) // random-profile objects per type (besides the 4 fixed profiles)
 		maxMut := c.Scale(40, 120)
 		for i := range registry {
